@@ -736,26 +736,50 @@ def pmap(func: Callable[[Any], Any], args: List[Any], procs: Optional[int] = Non
     procs = procs or min(NCPU, len(args))
     if procs <= 1 or len(args) == 1:
         return [func(a) for a in args]
+    # ProcessPoolExecutor (not mp.Pool): a worker killed by the kernel (out of memory) raises BrokenProcessPool instead of
+    # leaving the parent waiting forever
+    from concurrent.futures import ProcessPoolExecutor
+    from concurrent.futures.process import BrokenProcessPool
     ctx = mp.get_context("fork")
-    with ctx.Pool(procs) as pool:
-        return pool.map(func, args)
+    try:
+        with ProcessPoolExecutor(max_workers=procs, mp_context=ctx) as pool:
+            return list(pool.map(func, args))
+    except BrokenProcessPool as e:
+        raise MachineryError(f"a worker process died (out of memory?): {e}")
 
 
 def tlc_judge_trace(pid: str, spec_dir: Path, module: str, cfg: str, events: List[Any], tag: str, heap: str = "2g") -> List[Dict[str, Any]]:
     """Write events as ndjson, run the Trace* specification over them (single worker, linear
     behaviour), return the collected `bad` records printed as <<"BAD", n, set>>."""
     d = scratch(pid)
-    tf = d / f"trace-{tag}.ndjson"
-    write_ndjson(tf, events)
-    res = run_tlc(spec_dir, module, cfg, workers=1, env={"TRACE_FILE": str(tf)}, tag=f"{pid}-trace-{tag}", timeout=3000, heap=heap)
-    bad = None
-    for v in res.printed():
-        if isinstance(v, tuple) and len(v) == 3 and v[0] == "BAD":
-            bad = v
-    if bad is None or not res.ok:
-        raise MachineryError(f"trace validation did not complete ({pid} {tag}):\n{res.out[-2500:]}")
-    tf.unlink()
-    return [dict(b) for b in bad[2]]
+    # traces are independent (each starts with an "Init" event that resets the monitors): long campaigns are judged in chunks
+    # of at most CHUNK events, cut at trace starts, so that one TLC never has to hold a trace file of hundreds of megabytes
+    CHUNK = 40000
+    chunks: List[List[Any]] = [[]]
+    for e in events:
+        if len(chunks[-1]) >= CHUNK and isinstance(e, dict) and e.get("ev") == "Init":
+            chunks.append([])
+        chunks[-1].append(e)
+    out: List[Dict[str, Any]] = []
+    offset = 0          # `line` fields of the verdicts are positions in the whole event list
+    for ci, ch in enumerate(chunks):
+        tf = d / f"trace-{tag}-{ci}.ndjson"
+        write_ndjson(tf, ch)
+        res = run_tlc(spec_dir, module, cfg, workers=1, env={"TRACE_FILE": str(tf)}, tag=f"{pid}-trace-{tag}", timeout=3000, heap=heap)
+        bad = None
+        for v in res.printed():
+            if isinstance(v, tuple) and len(v) == 3 and v[0] == "BAD":
+                bad = v
+        if bad is None or not res.ok:
+            raise MachineryError(f"trace validation did not complete ({pid} {tag} chunk {ci}):\n{res.out[-2500:]}")
+        tf.unlink()
+        for b in bad[2]:
+            b = dict(b)
+            if isinstance(b.get("line"), int):
+                b["line"] += offset
+            out.append(b)
+        offset += len(ch)
+    return out
 
 
 def _campaign_job(arg):
